@@ -50,6 +50,9 @@ CHECKS = {
  "C10": dict(
    text="Theorems (Props/C10.v), for EVERY presentation (hash iteration order) of a well-formed graph: toposort answers a cycle iff one exists; a reported cycle is a real cycle; otherwise the answer is a linear extension; find_cycle's panic is unreachable; Kahn's counters never underflow and its fuel suffices. Tie: hook toposort_trace on every digraph with self-loops on <=4 nodes under fresh hash seeds (thorough: + 400k on 5 nodes, 20k structured larger ones): detection vs an independent python DFS, answers validated by the extracted checkers, and equality with the model run on the very iteration orders the implementation saw; HCL level: random wire graphs through every built-in path and non-path, printed chain verified edge by edge.",
    note="graph construction from assignments (which edges exist) tied at HCL level by correspondence; HashSet semantics (each element once, clone keeps order) trusted / checked by the hook.", ref="4 C10"),
+ "C16": dict(
+   text="Theorems (Props/C16.v): the memory section is exactly the header plus one canonical row per 16-byte row containing a used byte, ascending, each used byte at its own column under the row's address label, nothing else (sparse, unaligned first address, far rows, top of the address space incl. the wrap at 2^64-1); rows cover exactly the used bytes; hex fields denote the value and fit their field; every line of the memory section and of a register bank (wrapped or not, any number/width/name length) is delimited '| ... |'. Tie: 1200 (thorough 30000) machine states injected through hooks (registers, 0-3 banks with 1-14 registers and names to 70 chars, all stall/bubble states, memory sets at every residue / 1,15,16,17,k rows apart / around 2^28, 2^32 / up to 2^64-1): dump text equal to the model's AND read back by an independent python parser into exactly the injected state.",
+   note="a Coq parse_dump inverse is not defined; 'can be read back' is shown by the canonical-row theorem plus hex round trips in Coq and by the independent parser in the check.", ref="4 C16"),
  "C17": dict(
    text="Theorems (Props/C17.v): acceptance is monotone in the option set and the width is unchanged; an expression accepted under two sets has the same value under both; acceptance under any set = derivability in the rule system where each option guards exactly its own premise. Tie: 7 (thorough: all 32) separate builds of the implementation: separating expressions per option judged on the implementation alone, random and one-fault expressions vs the model with the same option record, programs simulated under every set with traces compared.",
    note="cfg! plumbing tied by building each feature set.", ref="4 C17"),
